@@ -150,6 +150,11 @@ structure Sh where
   `lifecycle.finish(evt)`, and after a panic in a later statement of `cleanup` the guard's `Drop` sends
   a second one ("actor_task_cancelled") when it runs `cleanup` again -/
   supEvents : Nat := 0
+  /-- ghost: a `Kill` was accepted by the signal port before the processing loop reached `post_stop`:
+  it wins the first poll of `ports.run_with_signal(post_stop)` (biased `select!`), `handle_signal`
+  terminates the children (an early execution of `cleanup.terminate`'s work) and the exit continues
+  as a killed one — `post_stop` never runs (`Exiter.hasPostStop` is cleared by the `kill` step) -/
+  killPending : Bool := false
   deriving DecidableEq, Repr, Inhabited
 
 structure G where
@@ -173,6 +178,11 @@ inductive Tid where
   /-- the statement of `cleanup` the exiter is about to execute panics; unwinding drops the
   lifecycle guard, whose `Drop` runs `cleanup` again from the top because it is still armed -/
   | unwind
+  /-- a `kill()` / `kill_and_wait()` is accepted by the signal port (whether the port is still open is
+  the business of `Model/WaitForms.lean`). It matters only while the processing loop has not reached
+  `post_stop` (`EPc.set1 _`): a graceful exit then turns into a killed one. Once the actor is inside
+  `post_stop` (one step here: user code that returns) or past it, the signal is never looked at. -/
+  | kill
   deriving DecidableEq, Repr, Inhabited
 
 /-- every cleanup step that precedes `publish(Stopped)` is done -/
@@ -349,6 +359,11 @@ def step (g : G) : Tid → G
       if g.exiter.armed then
         { g with exiter := { g.exiter with pc := .set2 (.publish stStopping), unwound := true } }
       else { g with exiter := { g.exiter with pc := .done, unwound := true } }
+    | _ => g
+  | .kill =>
+    match g.exiter.pc with
+    | .set1 _ => { g with sh := { g.sh with killPending := g.sh.killPending || g.exiter.hasPostStop },
+                          exiter := { g.exiter with hasPostStop := false } }
     | _ => g
 
 def run (g : G) (sched : List Tid) : G := sched.foldl step g
